@@ -289,6 +289,20 @@ def root_reset(prog, fn):
     return True, ''
 
 
+def empty_only(prog, fn, store_block, ret):
+    """every path to `ret` that avoids the store is taken because the collection is already empty (clear of an empty
+    collection may be a no-op)"""
+    from rules.bypass import bypass_paths, emptiness_edge
+    is_tree = fn.self_adt in prog.tree_adts
+    paths = bypass_paths(fn, {store_block}, ret)
+    if paths is None:
+        return False
+    for p in paths:
+        if not any(emptiness_edge(prog, fn, x, s2, is_tree) for x, s2 in zip(p, p[1:])):
+            return False
+    return True
+
+
 def run(ctx):
     prog = ctx.prog
     clears = [f for f in prog.fns.values() if f.trait_method() == 'clear']
@@ -362,7 +376,7 @@ def run(ctx):
                 continue
             # scalar cache: reset to the constructor's value?
             stores = [st for st in fn.body.stores if strip(st.root).kind == 'param' and st.fields() == (name,)]
-            if stores and all(fn.body.cfg.dominates(stores[0].point[0], r) for r in fn.body.cfg.returns):
-                ctx.add(RULE, fn, sig, 'ok', 'assigned on every path through clear (%s)' % show(strip(stores[0].value), 3), PROPS, line)
+            if stores and all(fn.body.cfg.dominates(stores[0].point[0], r) or empty_only(prog, fn, stores[0].point[0], r) for r in fn.body.cfg.returns):
+                ctx.add(RULE, fn, sig, 'ok', 'assigned on every path through clear on which the collection was not already empty (%s)' % show(strip(stores[0].value), 3), PROPS, line)
             else:
                 ctx.add(RULE, fn, sig, 'violation', 'field %s is written by %s but not reset by clear' % (name, sorted(w)), PROPS, line)
